@@ -194,6 +194,7 @@ type client interface {
 	ReadHalf() error                    // response head and part of its body read, then the client stops reading
 	ReadRest() (bool, string)           // remainder read and verified
 	BigSize() int                       // response size that cannot be written in one go to a client that stopped reading
+	GoneAway() bool                     // the proxy told this connection to stop (Connection: close / GOAWAY): no further request on it
 	Close()
 }
 
@@ -283,6 +284,9 @@ func (h *h1Client) ReadRest() (bool, string) {
 }
 func (h *h1Client) Close()       { h.c.Close() }
 func (h *h1Client) BigSize() int { return bigResp }
+func (h *h1Client) GoneAway() bool {
+	return h.resp != nil && (h.resp.Close || strings.EqualFold(h.resp.Header.Get("Connection"), "close"))
+}
 
 // ---- bolt v1
 
@@ -397,8 +401,9 @@ func (b *boltClient) ReadRest() (bool, string) {
 	}
 	return true, ""
 }
-func (b *boltClient) Close()       { b.c.Close() }
-func (b *boltClient) BigSize() int { return bigResp }
+func (b *boltClient) Close()         { b.c.Close() }
+func (b *boltClient) BigSize() int   { return bigResp }
+func (b *boltClient) GoneAway() bool { return false }
 
 func short(err error) string {
 	s := err.Error()
